@@ -25,6 +25,12 @@ Definition iSeq (md : string) (its : list item) (ps : list (Z * Z)) : cin :=
   ISeq (unhex md) its (map (fun p => (Z.to_nat (fst p), Z.to_nat (snd p))) ps).
 Definition iSort (md : string) (its : list item) (perms : list (list Z)) : cin :=
   ISort (unhex md) its (map nats perms).
+(* collector history: eS key-index increment | eR (an intermediate read); the keys come as items
+   whose value is ignored *)
+Definition eS (k inc : Z) : ev := ESample (Z.to_nat k) inc.
+Definition eR : ev := ERead.
+Definition iCol (md : string) (bykey : bool) (its : list item) (h : list ev) : cin :=
+  ICollect (unhex md) bykey (map fst its) h.
 Definition oErr : cout := OErr.
 Definition oPanic : cout := OPanic.
 Definition oAx (m : list (list bool)) : cout := OAx m.
